@@ -27,6 +27,9 @@ pub enum Op {
     /// resubmit pooled transaction #sel
     AddDuplicate { sel: u16 },
     AddInvalid { edit: u8 },
+    /// a correctly signed transaction of arbitrary shape (adversary::shape_tx) from a key that owns
+    /// nothing, optionally pointing at key 1's live output
+    AddShaped { code: u64 },
     /// the node's own producer, dt ms after the tip
     Bundle { dt: u32, gt: bool },
     /// a peer's block on the node's tip confirming a subset (mask) of the pooled transactions
@@ -249,6 +252,12 @@ pub fn run_case(case: &Case) -> (Vec<(String, String)>, Info) {
                     }
                 }
             }
+            Op::AddShaped { code } => {
+                opname = "add_shaped";
+                let real = w.node.spendable_of(&key(1).0, tip_id + 1).first().cloned();
+                let tx = shape_tx(*code, &key(7), real.as_ref(), tipb.timestamp + w.ts_salt);
+                let _ = catch(|| block_on(w.node.mempool.add_transaction_if_validates(tx, &w.node.chain)));
+            }
             Op::Bundle { dt, gt } => {
                 opname = "bundle";
                 let ts = tipb.timestamp + (*dt).max(1) as u64;
@@ -327,7 +336,10 @@ pub fn run_case(case: &Case) -> (Vec<(String, String)>, Info) {
                     continue;
                 }
                 let t = cands[(*sel as usize * cands.len()) >> 16];
-                let s: Slip = t.from.iter().find(|s| s.amount > 0 && s.slip_type != SlipType::Bound).cloned().unwrap();
+                let s: Slip = match t.from.iter().find(|s| s.amount > 0 && s.slip_type != SlipType::Bound).cloned() {
+                    Some(s) => s,
+                    None => continue, // a pooled transaction without a value-carrying input (shaped)
+                };
                 let owner = match (0u8..8).map(key).find(|k| k.0 == s.public_key) {
                     Some(o) => o,
                     None => continue,
@@ -468,6 +480,7 @@ pub fn arb_op() -> impl Strategy<Value = Op> {
         2 => any::<u16>().prop_map(|sel| Op::AddConflict { sel }),
         1 => any::<u16>().prop_map(|sel| Op::AddDuplicate { sel }),
         1 => any::<u8>().prop_map(|edit| Op::AddInvalid { edit }),
+        1 => any::<u64>().prop_map(|code| Op::AddShaped { code }),
         3 => (prop_oneof![Just(6000u32), 200u32..6000], any::<bool>()).prop_map(|(dt, gt)| Op::Bundle { dt, gt }),
         2 => (any::<u8>(), 200u32..800).prop_map(|(mask, dt)| Op::PeerConfirm { mask, dt }),
         3 => (any::<u16>(), 200u32..800).prop_map(|(sel, dt)| Op::PeerSpendsOneInput { sel, dt }),
